@@ -34,7 +34,11 @@ def opOf (text : Str) (ty : Nat) : Op :=
 
 theorem findOperator_eq (text : Str) (l r : Bool) : ∃ ty ∈ tys, findOperator text l r = opOf text ty := by
   unfold findOperator opOf
-  cases l <;> cases r <;> simp [tys]
+  cases l <;> cases r
+  · exact ⟨2, by simp [tys], rfl⟩
+  · exact ⟨1, by simp [tys], rfl⟩
+  · exact ⟨4, by simp [tys], rfl⟩
+  · exact ⟨2, by simp [tys], rfl⟩
 
 /-- is the text read as a left fence when it is looked at as the first child of a finished row (`startsWithLeftFence`)? -/
 def LF (text : Str) : Bool := (findOperator text true true).isLeftFence
@@ -107,5 +111,494 @@ theorem opOf_facts (text : Str) (ty : Nat) (hty : ty ∈ tys) :
 theorem implied_facts : impliedTimes.isRightFence = false ∧ impliedTimes.isPostfix = false ∧ impliedTimes.isLeftFence = false ∧
     impliedTimes.isPrefix = false ∧ 20 ≤ impliedTimes.prio ∧ LF [0x2062] = false ∧ isNary impliedTimes fencepost = false := by
   decide +kernel
+
+end MC.Props.C03NP
+
+namespace MC.Props.C03NP
+open MC.Rows
+
+/-! ## the invariant -/
+
+def notLF : T → Bool
+  | .op text _ => !LF text
+  | _ => true
+
+theorem notLF_row (ks : List T) : notLF (.row ks) = true := rfl
+theorem notLF_operand (t : Str) : notLF (.operand t) = true := rfl
+
+/-- per frame: (i) a frame that is just a left-fence leaf has a low-priority operator; (ii) so has one that is a left-fence
+leaf followed by one operand; (iii) an empty frame is waiting for an operand -/
+structure FrameOk (f : Frame) : Prop where
+  one : ∀ text a, f.rkids = [.op text a] → LF text = true → f.op.prio ≤ 20
+  two : ∀ k text a, f.rkids = [k, .op text a] → LF text = true → f.isOperand = true → f.op.prio ≤ 20
+  nil : f.rkids = [] → f.isOperand = false
+
+/-- the bottom frame: the fence post is still its operator; nothing in it, or one operand that is not a left-fence leaf -/
+def BottomOk (b : Frame) : Prop :=
+  b.op = fencepost ∧ ((b.rkids = [] ∧ b.isOperand = false) ∨ ∃ t, b.rkids = [t] ∧ b.isOperand = true ∧ notLF t = true)
+
+def Inv (s : List Frame) : Prop :=
+  (∃ b, s = [b] ∧ FrameOk b ∧ BottomOk b) ∨
+  (∃ top mid b, s = top :: (mid ++ [b]) ∧ FrameOk top ∧ (∀ f ∈ mid, FrameOk f ∧ f.isOperand = false) ∧
+      FrameOk b ∧ BottomOk b ∧ b.isOperand = false)
+
+theorem Inv.single (b : Frame) (h1 : FrameOk b) (h2 : BottomOk b) : Inv [b] := Or.inl ⟨b, rfl, h1, h2⟩
+
+theorem Inv.multi (top : Frame) (mid : List Frame) (b : Frame) (h1 : FrameOk top) (hm : ∀ f ∈ mid, FrameOk f ∧ f.isOperand = false)
+    (hb : FrameOk b) (hbo : BottomOk b) (hbop : b.isOperand = false) : Inv (top :: (mid ++ [b])) :=
+  Or.inr ⟨top, mid, b, rfl, h1, hm, hb, hbo, hbop⟩
+
+theorem Inv.ne_nil {s : List Frame} (h : Inv s) : s ≠ [] := by
+  rcases h with ⟨b, rfl, _⟩ | ⟨top, mid, b, rfl, _⟩ <;> simp
+
+theorem Inv.topOk {top : Frame} {rest : List Frame} (h : Inv (top :: rest)) : FrameOk top := by
+  rcases h with ⟨b, heq, h1, _⟩ | ⟨t, mid, b, heq, h1, _⟩
+  · simp only [List.cons.injEq] at heq; rw [heq.1]; exact h1
+  · simp only [List.cons.injEq] at heq; rw [heq.1]; exact h1
+
+theorem Inv.bottomOfSingle {b : Frame} (h : Inv [b]) : BottomOk b := by
+  rcases h with ⟨b', heq, _, h2⟩ | ⟨t, mid, b', heq, _⟩
+  · simp only [List.cons.injEq, and_true] at heq; rw [heq]; exact h2
+  · simp only [List.cons.injEq] at heq
+    have := heq.2
+    cases mid <;> simp at this
+
+theorem bottom_empty {b : Frame} (h : BottomOk b) (hop : b.isOperand = false) : b.rkids = [] := by
+  rcases h.2 with ⟨h1, _⟩ | ⟨t, _, h2, _⟩
+  · exact h1
+  · rw [hop] at h2; cases h2
+
+/-- what is below the top: it satisfies the invariant itself and its top is waiting for an operand -/
+theorem Inv.pop {top next : Frame} {rest : List Frame} (h : Inv (top :: next :: rest)) :
+    Inv (next :: rest) ∧ next.isOperand = false := by
+  rcases h with ⟨b, heq, _⟩ | ⟨t, mid, b, heq, h1, hm, hb, hbo, hbop⟩
+  · simp at heq
+  · simp only [List.cons.injEq] at heq
+    obtain ⟨_, heq⟩ := heq
+    cases mid with
+    | nil =>
+      simp only [List.nil_append, List.cons.injEq] at heq
+      obtain ⟨rfl, rfl⟩ := heq
+      exact ⟨.single _ hb hbo, hbop⟩
+    | cons m ms =>
+      simp only [List.cons_append, List.cons.injEq] at heq
+      obtain ⟨rfl, rfl⟩ := heq
+      have hm0 := hm next (by simp)
+      exact ⟨.multi next ms b hm0.1 (fun f hf => hm f (by simp [hf])) hb hbo hbop, hm0.2⟩
+
+/-- push a frame on a stack whose top is waiting for an operand -/
+theorem Inv.push {top : Frame} {rest : List Frame} (h : Inv (top :: rest)) (hop : top.isOperand = false)
+    (F : Frame) (hF : FrameOk F) : Inv (F :: top :: rest) := by
+  rcases h with ⟨b, heq, h1, h2⟩ | ⟨t, mid, b, heq, h1, hm, hb, hbo, hbop⟩
+  · simp only [List.cons.injEq] at heq
+    obtain ⟨rfl, rfl⟩ := heq
+    exact .multi F [] top hF (by simp) h1 h2 hop
+  · simp only [List.cons.injEq] at heq
+    obtain ⟨rfl, rfl⟩ := heq
+    exact .multi F (top :: mid) b hF (by
+      intro f hf
+      rcases List.mem_cons.mp hf with rfl | hf
+      · exact ⟨h1, hop⟩
+      · exact hm f hf) hb hbo hbop
+
+/-- replace the top frame -/
+theorem Inv.replaceTop {top : Frame} {rest : List Frame} (h : Inv (top :: rest)) (top' : Frame) (hF : FrameOk top')
+    (hb : rest = [] → BottomOk top') : Inv (top' :: rest) := by
+  rcases h with ⟨b, heq, _, _⟩ | ⟨t, mid, b, heq, _, hm, hbf, hbo, hbop⟩
+  · simp only [List.cons.injEq] at heq
+    obtain ⟨_, rfl⟩ := heq
+    exact .single top' hF (hb rfl)
+  · simp only [List.cons.injEq] at heq
+    obtain ⟨_, rfl⟩ := heq
+    exact .multi top' mid b hF hm hbf hbo hbop
+
+/-! ## reduce -/
+
+theorem close_notLF (top : Frame) (h : FrameOk top) (cur : Nat) (hc : 20 ≤ cur) (hlt : cur < top.op.prio) :
+    notLF top.close = true := by
+  unfold Frame.close
+  split
+  · rename_i t heq
+    cases t with
+    | op text a =>
+      simp only [notLF, Bool.not_eq_true']
+      cases hlf : LF text with
+      | false => rfl
+      | true => have := h.one text a heq hlf; omega
+    | operand _ => rfl
+    | row _ => rfl
+  · rfl
+
+/-- the frame `below` after the row on top of it was closed and added to it as an operand -/
+def absorb (below : Frame) (t : T) : Frame := { below with rkids := t :: below.rkids, isOperand := true }
+
+theorem addOperand_ok (f : Frame) (t : T) (h : f.isOperand = false) : f.addOperand t = .ok (absorb f t) := by
+  simp [Frame.addOperand, h, absorb]
+
+theorem absorb_frameOk (below : Frame) (t : T) (hb : FrameOk below) (hn : notLF t = true) : FrameOk (absorb below t) := by
+  refine ⟨?_, ?_, ?_⟩
+  · intro text a heq hlf
+    simp only [absorb, List.cons.injEq] at heq
+    rw [heq.1] at hn
+    simp [notLF, hlf] at hn
+  · intro k text a heq hlf _
+    simp only [absorb, List.cons.injEq] at heq
+    exact hb.one text a heq.2 hlf
+  · intro heq; simp [absorb] at heq
+
+theorem absorb_bottomOk (b : Frame) (t : T) (hb : BottomOk b) (hop : b.isOperand = false) (hn : notLF t = true) :
+    BottomOk (absorb b t) := by
+  refine ⟨hb.1, Or.inr ⟨t, ?_, rfl, hn⟩⟩
+  simp [absorb, bottom_empty hb hop]
+
+theorem reduceOne_inv {top below : Frame} {rest : List Frame} (h : Inv (top :: below :: rest)) (hn : notLF top.close = true) :
+    reduceOne (top :: below :: rest) = .ok (absorb below top.close :: rest) ∧ Inv (absorb below top.close :: rest) := by
+  obtain ⟨hinv, hop⟩ := h.pop
+  refine ⟨by simp [reduceOne, addOperand_ok _ _ hop, Outcome.bind], ?_⟩
+  refine hinv.replaceTop _ (absorb_frameOk below _ hinv.topOk hn) ?_
+  intro hr; subst hr
+  exact absorb_bottomOk below _ hinv.bottomOfSingle hop hn
+
+theorem reduce_inv (cur : Nat) (hc : 20 ≤ cur) : ∀ (fuel : Nat) (s : List Frame), Inv s → ∃ s', reduce cur fuel s = .ok s' ∧ Inv s' := by
+  intro fuel
+  induction fuel with
+  | zero => intro s h; exact ⟨s, rfl, h⟩
+  | succ n ih =>
+    intro s h
+    match s, h with
+    | [], h => exact absurd rfl h.ne_nil
+    | [b], h => exact ⟨[b], rfl, h⟩
+    | top :: below :: rest, h =>
+      simp only [reduce]
+      by_cases hlt : cur < top.op.prio
+      · have hn := close_notLF top h.topOk cur hc hlt
+        obtain ⟨he, hi⟩ := reduceOne_inv h hn
+        simp only [hlt, if_true, he, Outcome.bind]
+        exact ih _ hi
+      · simp only [hlt, if_false]
+        exact ⟨_, rfl, h⟩
+
+/-- the weaker invariant that the final reduction (priority 0) needs -/
+def W (s : List Frame) : Prop := s ≠ [] ∧ ∀ f ∈ s.tail, f.isOperand = false
+
+theorem Inv.toW {s : List Frame} (h : Inv s) : W s := by
+  refine ⟨h.ne_nil, ?_⟩
+  rcases h with ⟨b, rfl, _⟩ | ⟨top, mid, b, rfl, _, hm, _, _, hbop⟩
+  · simp
+  · intro f hf
+    simp only [List.tail_cons, List.mem_append, List.mem_singleton] at hf
+    rcases hf with hf | rfl
+    · exact (hm f hf).2
+    · exact hbop
+
+theorem reduce_W (cur : Nat) : ∀ (fuel : Nat) (s : List Frame), W s → ∃ s', reduce cur fuel s = .ok s' ∧ s' ≠ [] := by
+  intro fuel
+  induction fuel with
+  | zero => intro s h; exact ⟨s, rfl, h.1⟩
+  | succ n ih =>
+    intro s h
+    match s, h with
+    | [], h => exact absurd rfl h.1
+    | [b], h => exact ⟨[b], rfl, by simp⟩
+    | top :: below :: rest, h =>
+      simp only [reduce]
+      by_cases hlt : cur < top.op.prio
+      · have hop : below.isOperand = false := h.2 below (by simp)
+        simp only [hlt, if_true, reduceOne, addOperand_ok _ _ hop, Outcome.bind]
+        apply ih
+        refine ⟨by simp, ?_⟩
+        intro f hf
+        exact h.2 f (by simp only [List.tail_cons] at hf ⊢; exact List.mem_cons_of_mem _ hf)
+      · simp only [hlt, if_false]
+        exact ⟨_, rfl, by simp⟩
+
+/-! ## shift, followed by adding the child to the new top -/
+
+/-- between two tokens: if the top frame ends in an operand, that operand is not an `mo` leaf -/
+def Bnd (s : List Frame) : Prop := topIsOperand s = true → lastIsOperandNode s = true
+
+theorem bnd_of_not_operand (f : Frame) (rest : List Frame) (h : f.isOperand = false) : Bnd (f :: rest) := by
+  intro h'; simp [topIsOperand, h] at h'
+
+theorem bnd_absorb_row (f : Frame) (ks : List T) (rest : List Frame) : Bnd (absorb f (.row ks) :: rest) := by
+  intro _; simp [lastIsOperandNode, absorb]
+
+theorem frameOk_opened (child : T) (o : Op) (hLF : ∀ text a, child = .op text a → LF text = true → o.prio ≤ 20) :
+    FrameOk ⟨[child], o, false⟩ := by
+  refine ⟨?_, ?_, ?_⟩
+  · intro text a heq hlf
+    simp only [List.cons.injEq, and_true] at heq
+    exact hLF text a heq hlf
+  · intro k text a heq; simp at heq
+  · intro heq; simp at heq
+
+theorem frameOk_two (a b : T) (o : Op) : FrameOk ⟨[a, b], o, false⟩ := by
+  refine ⟨?_, ?_, ?_⟩
+  · intro text x heq; simp at heq
+  · intro k text x _ _ hop; simp at hop
+  · intro heq; simp at heq
+
+theorem startsWithLeftFence_two (child t : T) (o : Op) (hn : notLF t = true) :
+    startsWithLeftFence ⟨[child, t], o, false⟩ = false := by
+  unfold startsWithLeftFence firstKid
+  cases t with
+  | op text a =>
+    simp only [notLF, Bool.not_eq_true'] at hn
+    simpa [LF] using hn
+  | operand _ => rfl
+  | row _ => rfl
+
+theorem shiftAdd_inv (s : List Frame) (h : Inv s) (child : T) (o : Op)
+    (hLF : ∀ text a, child = .op text a → LF text = true → o.prio ≤ 20) (hN : isNary o fencepost = false) :
+    ∃ r, shift s child o = .ok r ∧ (o.isRightFence = false → o.isPostfix = false → r.2.2 = some o) ∧
+      ∃ s', addToTop r.1 r.2.1 r.2.2 = .ok s' ∧ Inv s' ∧ Bnd s' ∧ (r.2.2 = some o → topIsOperand s' = false) := by
+  match s, h with
+  | [], h => exact absurd rfl h.ne_nil
+  | top :: rest, h =>
+    unfold shift
+    by_cases hnary : isNary o top.op = true
+    · -- n-ary with the operator of the top frame: the operator joins that frame
+      simp only [hnary, if_true]
+      refine ⟨_, rfl, fun _ _ => rfl, top.addOp child o :: rest, rfl, ?_, bnd_of_not_operand _ _ rfl, fun _ => rfl⟩
+      refine h.replaceTop _ ⟨?_, ?_, ?_⟩ ?_
+      · intro text a heq hlf
+        simp only [Frame.addOp, List.cons.injEq] at heq
+        exact hLF text a heq.1 hlf
+      · intro k text a _ _ hop; simp [Frame.addOp] at hop
+      · intro heq; simp [Frame.addOp] at heq
+      · intro hr; subst hr
+        have := h.bottomOfSingle.1
+        rw [this, hN] at hnary; cases hnary
+    · have hnary' : isNary o top.op = false := by simpa using hnary
+      simp only [hnary', Bool.false_eq_true, if_false]
+      by_cases hB : (top.rkids.isEmpty || (!top.isOperand && !o.isRightFence)) = true
+      · -- nothing to take from the top frame: a new frame is opened with the operator
+        simp only [hB, if_true]
+        have hop : top.isOperand = false := by
+          simp only [Bool.or_eq_true, List.isEmpty_iff, Bool.and_eq_true, Bool.not_eq_true'] at hB
+          rcases hB with hB | hB
+          · exact h.topOk.nil hB
+          · exact hB.1
+        refine ⟨_, rfl, fun _ _ => rfl, Frame.new.addOp child o :: top :: rest, rfl, ?_, bnd_of_not_operand _ _ rfl, fun _ => rfl⟩
+        exact h.push hop _ (frameOk_opened child o hLF)
+      · have hB' : (top.rkids.isEmpty || (!top.isOperand && !o.isRightFence)) = false := by simpa using hB
+        simp only [hB', Bool.false_eq_true, if_false]
+        have hne : top.rkids ≠ [] := by
+          intro he; simp [he] at hB'
+        by_cases hR : o.isRightFence = true
+        · -- a right fence closes the top frame
+          simp only [hR, if_true]
+          by_cases hC : ((top.addOp child o).rkids.length = 2 && !startsWithLeftFence (top.addOp child o)) = true
+          · simp only [hC, if_true]
+            refine ⟨_, rfl, ?_, absorb Frame.new (.row (top.addOp child o).rkids.reverse) :: rest, ?_, ?_, bnd_absorb_row _ _ _, ?_⟩
+            · intro h1; cases h1
+            rotate_left 2
+            · intro h1; cases h1
+            · simp [addToTop, addOperand_ok Frame.new _ rfl, Outcome.bind]
+            · have hF : FrameOk (absorb Frame.new (.row (top.addOp child o).rkids.reverse)) :=
+                absorb_frameOk Frame.new _ ⟨by intro _ _ he; simp [Frame.new] at he, by intro _ _ _ he; simp [Frame.new] at he, fun _ => rfl⟩ rfl
+              match rest, h with
+              | [], _ => exact .single _ hF ⟨rfl, Or.inr ⟨_, rfl, rfl, rfl⟩⟩
+              | next :: rest', h => exact (h.pop.1).push h.pop.2 _ hF
+          · have hC' : ((top.addOp child o).rkids.length = 2 && !startsWithLeftFence (top.addOp child o)) = false := by simpa using hC
+            simp only [hC', Bool.false_eq_true, if_false]
+            match rest, h with
+            | [], h =>
+              -- impossible: the bottom frame holds exactly one operand, which is not a left-fence leaf
+              exfalso
+              rcases h.bottomOfSingle.2 with ⟨he, _⟩ | ⟨t, he, _, hn⟩
+              · exact hne he
+              · have : top.addOp child o = ⟨[child, t], o, false⟩ := by simp [Frame.addOp, he]
+                rw [this, startsWithLeftFence_two child t o hn] at hC'
+                simp at hC'
+            | next :: rest', h =>
+              obtain ⟨hinv, hop⟩ := h.pop
+              refine ⟨_, rfl, ?_, absorb next (.row (top.addOp child o).rkids.reverse) :: rest', ?_, ?_, bnd_absorb_row _ _ _, ?_⟩
+              · intro h1; cases h1
+              rotate_left 2
+              · intro h1; cases h1
+              · simp [addToTop, addOperand_ok next _ hop, Outcome.bind]
+              · refine hinv.replaceTop _ (absorb_frameOk next _ hinv.topOk rfl) ?_
+                intro hr; subst hr
+                exact absorb_bottomOk next _ hinv.bottomOfSingle hop rfl
+        · -- infix or postfix: the last operand of the top frame is taken out
+          have hR' : o.isRightFence = false := by simpa using hR
+          simp only [hR', Bool.false_eq_true, if_false]
+          have hopT : top.isOperand = true := by
+            simp only [Bool.or_eq_false_iff, Bool.and_eq_false_iff, Bool.not_eq_false', hR', Bool.not_false] at hB'
+            rcases hB'.2 with h1 | h1
+            · simpa using h1
+            · cases h1
+          match hk : top.rkids with
+          | [] => exact absurd hk hne
+          | last :: init =>
+            simp only [hopT, Bool.true_or, Bool.not_true, Bool.false_eq_true, if_false]
+            have hF' : FrameOk { top with rkids := init, isOperand := false } := by
+              refine ⟨?_, ?_, fun _ => rfl⟩
+              · intro text a heq hlf
+                simp only at heq
+                exact h.topOk.two last text a (by rw [hk, heq]) hlf hopT
+              · intro k text a _ _ hop; simp at hop
+            have hB0 : rest = [] → BottomOk { top with rkids := init, isOperand := false } := by
+              intro hr; subst hr
+              have hb := h.bottomOfSingle
+              refine ⟨hb.1, Or.inl ⟨?_, rfl⟩⟩
+              rcases hb.2 with ⟨he, _⟩ | ⟨t, he, _, _⟩
+              · exact absurd he hne
+              · rw [hk] at he; simp only [List.cons.injEq] at he; exact he.2
+            have hinv' := h.replaceTop _ hF' hB0
+            by_cases hP : o.isPostfix = true
+            · simp only [hP, if_true]
+              refine ⟨_, rfl, ?_, absorb { top with rkids := init, isOperand := false } (.row [last, child]) :: rest, ?_, ?_, bnd_absorb_row _ _ _, ?_⟩
+              · intro _ h2; cases h2
+              rotate_left 2
+              · intro h1; cases h1
+              · simp [addToTop, addOperand_ok _ _ (rfl : ({ top with rkids := init, isOperand := false } : Frame).isOperand = false), Outcome.bind]
+              · refine hinv'.replaceTop _ (absorb_frameOk _ _ hF' rfl) ?_
+                intro hr
+                exact absorb_bottomOk _ _ (hB0 hr) rfl rfl
+            · have hP' : o.isPostfix = false := by simpa using hP
+              simp only [hP', Bool.false_eq_true, if_false]
+              refine ⟨_, rfl, fun _ _ => rfl, (⟨[last], o, false⟩ : Frame).addOp child o :: { top with rkids := init, isOperand := false } :: rest, rfl, ?_, bnd_of_not_operand _ _ rfl, fun _ => rfl⟩
+              exact hinv'.push rfl _ (frameOk_two child last o)
+
+/-! ## one token, all tokens, the end of the row -/
+
+theorem token_shift_args (text : Str) (l r : Bool) :
+    (∀ t a, (T.op text false) = .op t a → LF t = true → (findOperator text l r).prio ≤ 20) ∧
+    isNary (findOperator text l r) fencepost = false := by
+  obtain ⟨ty, hty, he⟩ := findOperator_eq text l r
+  have hf := opOf_facts text ty hty
+  rw [he]
+  refine ⟨?_, hf.2.2⟩
+  intro t a heq hlf
+  simp only [T.op.injEq] at heq
+  rw [← heq.1] at hlf
+  exact hf.2.1 hlf
+
+theorem top_not_operand {s : List Frame} (h : topIsOperand s = false) (hs : s ≠ []) : ∃ top rest, s = top :: rest ∧ top.isOperand = false := by
+  match s, hs with
+  | top :: rest, _ => exact ⟨top, rest, rfl, by simpa [topIsOperand] using h⟩
+
+theorem insertImplied_inv (s : List Frame) (h : Inv s) : ∃ s', insertImplied s = .ok s' ∧ Inv s' ∧ topIsOperand s' = false := by
+  obtain ⟨hrf, hpf, _, _, hprio, hlf, hn⟩ := implied_facts
+  obtain ⟨s1, hr, h1⟩ := reduce_inv impliedTimes.prio hprio s.length s h
+  have hLF : ∀ text a, (T.op [0x2062] true) = .op text a → LF text = true → impliedTimes.prio ≤ 20 := by
+    intro text a heq hl
+    simp only [T.op.injEq] at heq
+    rw [← heq.1, hlf] at hl; cases hl
+  obtain ⟨r, hs, hsome, s', hadd, hinv, _, htop⟩ := shiftAdd_inv s1 h1 (.op [0x2062] true) impliedTimes hLF hn
+  have hso := hsome hrf hpf
+  refine ⟨s', ?_, hinv, htop hso⟩
+  unfold insertImplied
+  simp only [hr, Outcome.bind, hs]
+  rw [hso] at hadd
+  simp only [hso]
+  exact hadd
+
+/-- a token that the library can hand to the row parser: not one of the two right quotation marks (see the head of the file) -/
+def tokOk : Tok → Bool
+  | .mo text => !quoteR text
+  | .operand _ => true
+
+theorem step_inv (s : List Frame) (h : Inv s) (hb : Bnd s) (tok : Tok) (nxt : Bool) (ht : tokOk tok = true) :
+    ∃ s', step s tok nxt = .ok s' ∧ Inv s' ∧ Bnd s' := by
+  cases tok with
+  | operand text =>
+    -- an operand: implied multiplication first if the row so far ends in an operand
+    have hpre : ∃ s1, (if lastIsOperandNode s then insertImplied s else .ok s) = .ok s1 ∧ Inv s1 ∧ topIsOperand s1 = false := by
+      by_cases hl : lastIsOperandNode s = true
+      · simp only [hl, if_true]; exact insertImplied_inv s h
+      · simp only [hl, Bool.false_eq_true, if_false]
+        refine ⟨s, rfl, h, ?_⟩
+        cases ht' : topIsOperand s with
+        | false => rfl
+        | true => exact absurd (hb ht') hl
+    obtain ⟨s1, he, h1, hop⟩ := hpre
+    obtain ⟨top, rest, rfl, hopT⟩ := top_not_operand hop h1.ne_nil
+    refine ⟨absorb top (.operand text) :: rest, ?_, ?_, ?_⟩
+    · simp only [step, he, Outcome.bind, addToTop, addOperand_ok top _ hopT]
+    · refine h1.replaceTop _ (absorb_frameOk top _ h1.topOk rfl) ?_
+      intro hr; subst hr
+      exact absorb_bottomOk top _ h1.bottomOfSingle hopT rfl
+    · intro _; simp [lastIsOperandNode, absorb]
+  | mo text =>
+    simp only [step]
+    generalize hol : (topIsOperand s || (topOp s).isPostfix) = ol
+    obtain ⟨hLF, hN⟩ := token_shift_args text ol nxt
+    by_cases hpf : ((findOperator text ol nxt).isLeftFence || (findOperator text ol nxt).isPrefix) = true
+    · -- a prefix operator or a left fence opens a frame
+      simp only [hpf, if_true]
+      have hpre : ∃ s1, (if topIsOperand s then insertImplied s else .ok s) = .ok s1 ∧ Inv s1 ∧ topIsOperand s1 = false := by
+        by_cases hl : topIsOperand s = true
+        · simp only [hl, if_true]; exact insertImplied_inv s h
+        · simp only [hl, Bool.false_eq_true, if_false]
+          exact ⟨s, rfl, h, by simpa using hl⟩
+      obtain ⟨s1, he, h1, hop⟩ := hpre
+      obtain ⟨top, rest, rfl, hopT⟩ := top_not_operand hop h1.ne_nil
+      refine ⟨Frame.new.addOp (.op text false) (findOperator text ol nxt) :: top :: rest, ?_, ?_, bnd_of_not_operand _ _ rfl⟩
+      · simp only [he, Outcome.bind, addToTop]
+      · exact h1.push hopT _ (frameOk_opened _ _ hLF)
+    · -- infix, postfix or right fence: reduce, shift, add
+      have hpf' : ((findOperator text ol nxt).isLeftFence || (findOperator text ol nxt).isPrefix) = false := by simpa using hpf
+      simp only [hpf', Bool.false_eq_true, if_false]
+      have hprio : 20 ≤ (findOperator text ol nxt).prio := by
+        obtain ⟨ty, hty, he⟩ := findOperator_eq text ol nxt
+        have hf := (opOf_facts text ty hty).1
+        rw [← he] at hf
+        simp only [Bool.or_eq_false_iff] at hpf'
+        simp only [tokOk, Bool.not_eq_true'] at ht
+        rcases hf with hq | hl | hp | hpr
+        · rw [ht] at hq; cases hq
+        · rw [hpf'.1] at hl; cases hl
+        · rw [hpf'.2] at hp; cases hp
+        · exact hpr
+      obtain ⟨s1, hr, h1⟩ := reduce_inv _ hprio s.length s h
+      obtain ⟨r, hs, _, s', hadd, hinv, hbnd, _⟩ := shiftAdd_inv s1 h1 (.op text false) (findOperator text ol nxt) hLF hN
+      exact ⟨s', by simp only [hr, Outcome.bind, hs, hadd], hinv, hbnd⟩
+
+def nextIsOperand (ts : List Tok) : Bool := match ts with | n :: _ => isOperandTok n | [] => false
+
+theorem run_cons (s : List Frame) (t : Tok) (ts : List Tok) :
+    run s (t :: ts) = (step s t (nextIsOperand ts)).bind fun s' => run s' ts := rfl
+
+theorem run_inv : ∀ (toks : List Tok) (s : List Frame), Inv s → Bnd s → (∀ t ∈ toks, tokOk t = true) →
+    ∃ s', run s toks = .ok s' ∧ Inv s' := by
+  intro toks
+  induction toks with
+  | nil => intro s h _ _; exact ⟨s, rfl, h⟩
+  | cons t ts ih =>
+    intro s h hb hall
+    obtain ⟨s1, he, h1, hb1⟩ := step_inv s h hb t (nextIsOperand ts) (hall t (by simp))
+    obtain ⟨s2, he2, h2⟩ := ih s1 h1 hb1 (fun x hx => hall x (by simp [hx]))
+    exact ⟨s2, by rw [run_cons, he]; simp only [Outcome.bind, he2], h2⟩
+
+theorem inv_init : Inv [Frame.new] ∧ Bnd [Frame.new] := by
+  refine ⟨.single _ ⟨?_, ?_, fun _ => rfl⟩ ⟨rfl, Or.inl ⟨rfl, rfl⟩⟩, bnd_of_not_operand _ _ rfl⟩
+  · intro _ _ he; simp [Frame.new] at he
+  · intro _ _ _ he; simp [Frame.new] at he
+
+/-- **the row parser never panics**: for every sequence of tokens (operands and `mo`s with any text, in the dictionary or
+not, in any order and number) that does not contain `’` or `”` as an `mo`, the parse ends in a tree: none of the
+`assert!`s and `unwrap`s of `canonicalize_mrows_in_mrow`, `shift_stack`, `reduce_stack_one_time`, `add_child_to_mrow` and
+`remove_last_operand_from_mrow` is reachable. -/
+theorem parseRow_no_panic (toks : List Tok) (h : ∀ t ∈ toks, tokOk t = true) : ∃ t, parseRow toks = .ok t := by
+  obtain ⟨s, hr, hs⟩ := run_inv toks [Frame.new] inv_init.1 inv_init.2 h
+  obtain ⟨s1, hf, hne⟩ := reduce_W fencepost.prio s.length s hs.toW
+  unfold parseRow finish
+  simp only [hr, Outcome.bind, hf]
+  match s1, hne with
+  | f :: rest, _ => exact ⟨_, rfl⟩
+
+def isPanic {α : Type} : Outcome α → Bool
+  | .panic _ => true
+  | _ => false
+
+/-- the hypothesis is needed: `( ’` reaches `parse_stack.pop().unwrap()` on an empty stack (in the model; the library
+turns the quotation mark into a prime before the row is parsed) -/
+theorem quote_after_paren_panics : isPanic (parseRow [.mo [40], .mo [0x2019]]) = true := by decide +kernel
+
+/-- non-vacuity: a row with every kind of token satisfies the hypothesis -/
+example : ∀ t ∈ [Tok.mo [40], .operand [97], .mo [43], .mo [45], .operand [98], .mo [41], .mo [33], .mo [124], .mo [0x201C]], tokOk t = true := by decide
 
 end MC.Props.C03NP
